@@ -212,6 +212,13 @@ def ob_loop_inductive(first):
             s_.current_rep = c0
             return s_
         saver.load_partial_results = load
+        periodic = []
+
+        def maybe(current_rep, current_params, current_sim_results):
+            # the periodic save: record the state it is handed at the moment of the call
+            d = _fld(current_sim_results, "_results")
+            periodic.append((current_rep, _fld(d["v"][-1], "num_updates"), _fld(d["v"][-1], "_value")))
+        saver.save_partial_results_maybe = maybe
         kg = []
         r._keep_going = lambda p, res, rep: kg.append((rep, bool(c.fresh_var("keep_going", "bool")))) or kg[-1][1]
         fn = it.ifunc_from_spec("pyphysim.simulations.runner:SimulationRunner._simulate_for_current_params_common")
@@ -245,6 +252,9 @@ def ob_loop_inductive(first):
             goals.append(Goal("the stop rule was asked with the current count", len(kg) == 1 and lift(kg[0][0]) == c0))
             succ = [t for t in r.trace if not isinstance(t, str)]
             nskip = sum(1 for t in r.trace if isinstance(t, str))
+            for (prep, pup, pval) in periodic:
+                goals.append(Goal("the periodic save is handed a consistent state: count == merged repetitions", lift(prep) == lift(pup)))
+            goals.append(Goal("the periodic save is offered the state once per iteration", len(periodic) == 1))
             if succ:
                 goals.append(Goal("successful repetition: exactly one execution", len(succ) == 1 and nskip == 0))
                 goals.append(Goal("count' == count + 1 (<= rep_max)", (lift(rep1) == c0 + 1) & (lift(rep1) <= R)))
@@ -317,6 +327,42 @@ def ob_single_dispatch():
                 goals.append(Goal("index %r out of range: nothing is run" % (idx,), len(seen) == 0))
         return goals
     return verify(body, check_side=False)
+
+
+@obligation("runner/restart_on_the_same_object_after_an_interruption", params=[{"at": a} for a in (1, 2, 3)], timeout=600,
+            desc="history: simulate() is interrupted by an exception raised from the a-th execution of the user's iteration (2 variations, "
+                 "rep_max 2, so after 0 or 1 completed variations), then simulate() is called again on the SAME runner: the second run "
+                 "satisfies the whole contract on its own trace (every variation once, counts, stored sums) - nothing of the "
+                 "interrupted run is kept or counted twice")
+def ob_restart_same_object(at):
+    def body(c, it):
+        it.native_prefixes = list(NATIVE)
+        r = _make_runner(c, GRIDS["one"], 2, 0, keep_going_oracle=False)
+        orig = r._run_simulation
+        calls = {"n": 0, "armed": True}
+
+        class Interrupted(Exception):
+            pass
+
+        def run(p):
+            calls["n"] += 1
+            if calls["armed"] and calls["n"] == at:
+                raise Interrupted("interrupted in execution %d" % at)
+            return orig(p)
+        r._run_simulation = run
+        try:
+            it.call(it.getattr(r, "simulate"), [])
+            return [Goal("the interruption propagated out of simulate()", False)]
+        except PyRaise as pr:
+            if not isinstance(pr.exc, Interrupted):
+                raise
+        calls["armed"] = False
+        del r.trace[:]
+        del r.kg_trace[:]
+        r.skips.clear()
+        it.call(it.getattr(r, "simulate"), [])
+        return _path_goals(r, GRIDS["one"], 2, "[restart] ")
+    return verify(body, check_side=False, timeout_ms=20000, max_paths=2000)
 
 
 @obligation("runner/skip_never_escapes", timeout=600,
